@@ -258,6 +258,23 @@ class Check:
         return 1 if nviol else 0
 
 
+def limit_new(by_key, prop, n=6):
+    """Keep every key that is a listed known finding and at most n others (a badly broken tree yields thousands of
+    distinct keys; confirming and reporting a handful is enough)."""
+    known = {k["key"] for k in load_known().get("findings", []) if k["property"] == prop}
+    out, new = {}, 0
+    for key in sorted(by_key):
+        if key in known:
+            out[key] = by_key[key]
+        elif new < n:
+            out[key] = by_key[key]
+            new += 1
+    dropped = len(by_key) - len(out)
+    if dropped:
+        log(f"[keys] {dropped} further distinct violation keys not individually confirmed/reported")
+    return out
+
+
 def load_known():
     p = os.path.join(ROOT, "known_findings.json")
     if not os.path.exists(p):
